@@ -536,6 +536,8 @@ class DThread(object):
             switch("spawn")
 
     def join(self, timeout=None):
+        if self.lt is not None and self.lt is me():
+            raise RuntimeError("cannot join current thread")      # as threading.Thread.join does
         switch("join")
         lt = self.lt
         block(lambda: lt.done, timeout)
